@@ -590,7 +590,7 @@ func (vm *Thread) run() {
 			if !err.IsUndefined() {
 				vm.pop()
 				vm.rethrow(err, vm.BuildStackTracePrepend(stackTrace))
-				return
+				continue
 			}
 
 			vm.replace(result)
@@ -608,7 +608,7 @@ func (vm *Thread) run() {
 			if !err.IsUndefined() {
 				vm.pop()
 				vm.rethrow(err, vm.BuildStackTracePrepend(stackTrace))
-				return
+				continue
 			}
 
 			vm.replace(result)
@@ -619,7 +619,7 @@ func (vm *Thread) run() {
 			if !err.IsUndefined() {
 				vm.pop()
 				vm.rethrow(err, vm.BuildStackTracePrepend(stackTrace))
-				return
+				continue
 			}
 
 			vm.replace(result)
